@@ -366,6 +366,99 @@ func main() {
 			})
 		})
 
+		// The destination refuses the first write of the reply with an error that calls itself
+		// temporary, accepting nothing, and works afterwards. Whether the library gives up or tries
+		// again is its choice; what the destination ends up holding is either nothing or exactly
+		// the reply the statement asks for (one whole frame, right opcode, payload, masking).
+		r.Part("E4-reply-destination-fails-once-temporarily", func(t *explore.T) {
+			var cases []ctlCase
+			for _, side := range []streams.Side{streams.Server, streams.Client} {
+				for _, n := range []int{0, 1, 5, 125} {
+					p := make([]byte, n)
+					for i := range p {
+						p[i] = byte(i*7 + 3)
+					}
+					cases = append(cases, ctlCase{side, 9, p, 0})
+				}
+				for _, body := range [][]byte{{}, {0x03}, {0x03, 0xe8}, append([]byte{0x03, 0xe8}, "bye"...), {0x03, 0xed}, {0x00, 0x01}, append([]byte{0x03, 0xe8}, 0xff, 0xfe), append([]byte{0x0f, 0xa0}, "app"...)} {
+					cases = append(cases, ctlCase{side, 8, body, 0})
+				}
+			}
+			type fentry struct {
+				name string
+				run  func(c ctlCase, d *env.Dst) error
+			}
+			fes := []fentry{
+				{"Handle", func(c ctlCase, d *env.Dst) error {
+					h := ws.Header{Fin: true, OpCode: ws.OpCode(c.op), Length: int64(len(c.payload))}
+					wire := c.payload
+					if c.side == streams.Server {
+						h.Masked, h.Mask = true, srcMask
+						wire = refmodel.XOR(c.payload, srcMask, 0)
+					}
+					return wsutil.ControlHandler{Src: bytes.NewReader(wire), Dst: d, State: c.st()}.Handle(h)
+				}},
+				{"HandleControlMessage", func(c ctlCase, d *env.Dst) error {
+					return wsutil.HandleControlMessage(d, c.st(), wsutil.Message{OpCode: ws.OpCode(c.op), Payload: c.payload})
+				}},
+			}
+			for _, c := range cases {
+				for _, fe := range fes {
+					for _, timeout := range []bool{false, true} {
+						c, fe, timeout := c, fe, timeout
+						t.Do(func() string { return fmt.Sprintf("%s entry=%s first destination write fails temporarily (timeout=%v)", c, fe.name, timeout) }, func() *explore.Fail {
+							d := env.NewDst()
+							d.FailAt, d.Partial, d.Transient, d.Err = 0, 0, true, env.TempErr{IsTimeout: timeout}
+							ret := fe.run(c, d)
+							written := d.Bytes()
+							cls := c.class() + ":" + fe.name
+							if len(written) == 0 {
+								if ret == nil {
+									return explore.Failf("reply-lost-silently:"+cls, "the destination refused the reply and the handler returned nil")
+								}
+								t.Outcome("gave-up")
+								return nil
+							}
+							frames, rest := drivers.ParseFrames(written)
+							if len(rest) != 0 || len(frames) != 1 {
+								return explore.Failf("reply-after-temporary-failure-not-one-whole-frame:"+cls, "%x", written)
+							}
+							f := frames[0]
+							peer := refmodel.St{Client: c.side == streams.Server, Server: c.side == streams.Client}
+							if broken := refmodel.CheckRules(f.H, peer); len(broken) != 0 || !f.H.Fin || f.H.Masked != (c.side == streams.Client) {
+								return explore.Failf("reply-after-temporary-failure-breaks-peer-rules:"+cls, "%v %v", f.H, broken)
+							}
+							switch c.op {
+							case 9:
+								if f.H.Op != 10 || !bytes.Equal(f.Payload, c.payload) {
+									return explore.Failf("reply-after-temporary-failure-wrong-pong:"+cls, "%v %x", f.H, f.Payload)
+								}
+							case 8:
+								if f.H.Op != 8 {
+									return explore.Failf("reply-after-temporary-failure-wrong-opcode:"+cls, "%v", f.H)
+								}
+								if len(f.Payload) == 1 || (len(f.Payload) >= 2 && !utf8.Valid(f.Payload[2:])) {
+									return explore.Failf("reply-after-temporary-failure-close-body-invalid:"+cls, "%x", f.Payload)
+								}
+								if len(f.Payload) >= 2 {
+									rc := uint16(f.Payload[0])<<8 | uint16(f.Payload[1])
+									var rcvd uint16
+									if len(c.payload) >= 2 {
+										rcvd = uint16(c.payload[0])<<8 | uint16(c.payload[1])
+									}
+									if !(refmodel.CloseCodeClass(rc) > 0 || (refmodel.CloseCodeClass(rc) == 0 && rc == rcvd)) {
+										return explore.Failf("reply-after-temporary-failure-close-code-invalid:"+cls, "code %d", rc)
+									}
+								}
+							}
+							t.Outcome("retried")
+							return nil
+						})
+					}
+				}
+			}
+		})
+
 		r.Part("E3-ControlWriter-sequences", func(t *explore.T) {
 			// negative: io.Copy of that many bytes from a plain reader into the control writer
 			// (goes through the writer's ReadFrom if it has one, through Write otherwise)
